@@ -5,7 +5,12 @@ from .engine import Ctx, proof_report, TRUSTED
 from . import corr_cache, cacheseq
 
 def N(ctx, quick, thorough):
-    return quick if ctx.tier == "quick" else thorough
+    """case counts; the thorough tier is sized so that the sixteen thorough checks together take about two hours
+    on 16 cores (VERIF_THOROUGH_SCALE=1.0 gives the full counts written at the call sites)"""
+    if ctx.tier == "quick":
+        return quick
+    scale = float(os.environ.get("VERIF_THOROUGH_SCALE", "0.4"))
+    return max(2 * quick, int(thorough * scale))
 
 def proof_part(ctx, props_file, proof_files, cov):
     ob, di, broken, a = proof_report(ctx, props_file, proof_files)
@@ -174,14 +179,6 @@ def check_C07():
                                              "proofs/X_lin.v", "proofs/X_resize.v", "proofs/X_count.v", "proofs/X_range.v", "XMachine.v"], cov)
     cache_seq_part(ctx, "C07", cov, N(ctx, 1200, 20000), broken)
     table_part(ctx, "C07", cov, N(ctx, 60, 600), [])
-    # every schedule: the Range theorems are about XMachine; schedules of the real code that contain a traversal are replayed
-    # on it step by step (mapof.go) and on XMachineS (map.go, visitors that call back into the map included)
-    def sel(b):
-        sc, r, why = b
-        ops = json.dumps((sc or {}).get("threads", []))
-        return "Range" in ops or "crashed" in why
-    xcorr_part(ctx, "C07", cov, _x_sets(ctx, N(ctx, 200, 3000)), sel)
-    xcorrs_part(ctx, "C07", cov, N(ctx, 100, 2000), sel)
     # on the real code, all containers: every traversal of every schedule is checked (lincheck range-check: no key twice, only
     # pairs stored under that key by a call that began before the traversal returned, every untouched present key visited);
     # tables at the grow threshold so that traversals overlap table copies; visitors that delete / store / insert / clear
@@ -205,6 +202,14 @@ def check_C07():
                                   failing_op=json.dumps((sc or {}).get("threads"))[:300], checker=lc), failing_input=True,
                                   what="a traversal whose visitor mutates the container: " + "; ".join(lc.get("violations", []))[:200])
         cov["reentrant_visitor_scenarios"] = len(rows or [])
+    # every schedule: the Range theorems are about XMachine; schedules of the real code that contain a traversal are replayed
+    # on it step by step (mapof.go) and on XMachineS (map.go, visitors that call back into the map included)
+    def sel(b):
+        sc, r, why = b
+        ops = json.dumps((sc or {}).get("threads", []))
+        return "Range" in ops or "crashed" in why
+    xcorr_part(ctx, "C07", cov, _x_sets(ctx, N(ctx, 200, 3000)), sel)
+    xcorrs_part(ctx, "C07", cov, N(ctx, 100, 2000), sel)
     if broken and not ctx.violations:
         ctx.violation("proof", dict(broken=broken), failing_input=False, what="proof obligation no longer checks")
     cov["rule"] = ("sequential: every Range/Items answer of the implementation is tested by range_okb (no duplicate, only live current pairs, stops exactly when told, otherwise complete) and compared with the model visiting in the same order; "
@@ -221,13 +226,6 @@ def check_C08():
     res = cache_seq_part(ctx, "C08", cov, N(ctx, 1200, 20000), broken, dense=True)
     law_part(ctx, "C08", cov, res)
     table_part(ctx, "C08", cov, N(ctx, 60, 600), [])
-    # every schedule: the theorems are about XMachine; it is replayed step by step against mapof.go (the AddInt64 /
-    # LoadInt64 steps on the counter stripes and the final Size included), and XMachineS against map.go
-    def sel(b):
-        why = b[2]
-        return any(x in why for x in ("AddInt64", "LoadInt64", "final Size", "final layout", "final table", "extra steps", "no such step", "crashed", "nat "))
-    xcorr_part(ctx, "C08", cov, _x_sets(ctx, N(ctx, 200, 4000)), sel)
-    xcorrs_part(ctx, "C08", cov, N(ctx, 100, 3000), sel)
     # on the real code, all containers: at the end of every schedule Size/Count must equal the number of pairs
     # Range visits and the successful loads (lincheck final-state); resizes frozen at every point, writers parked
     from . import solo
@@ -237,6 +235,13 @@ def check_C08():
                sets=[("Map", n, ["-prefill", "73", "-clear", "30"]), ("MapOf_int", n, ["-hasher", "const", "-prefill", "125", "-clear", "30"]),
                      ("MapOf_str", n, ["-prefill", "121"]), ("MapOf_int", n, ["-threads", "4", "-ops", "4", "-sched", "mix", "-keys", "5"]),
                      ("Cache", n, []), ("CacheOf_int", n, [])])
+    # every schedule: the theorems are about XMachine; it is replayed step by step against mapof.go (the AddInt64 /
+    # LoadInt64 steps on the counter stripes and the final Size included), and XMachineS against map.go
+    def sel(b):
+        why = b[2]
+        return any(x in why for x in ("AddInt64", "LoadInt64", "final Size", "final layout", "final table", "extra steps", "no such step", "crashed", "nat "))
+    xcorr_part(ctx, "C08", cov, _x_sets(ctx, N(ctx, 200, 4000)), sel)
+    xcorrs_part(ctx, "C08", cov, N(ctx, 100, 3000), sel)
     if broken and not ctx.violations:
         ctx.violation("proof", dict(broken=broken), failing_input=False, what="proof obligation no longer checks")
     cov["rule"] = ("theorem over every reachable state of XMachine for every schedule: visible entries = counter + additions owed, for every table ever created; "
